@@ -35,6 +35,7 @@ def run(tier):
             expand.growth_progress_rule(chk, 'C07.D3', prog, p, cfgname)
             expand.relaxed_capacity_rule(chk, 'C07.D3', prog, p, cfgname)
             expand.companion_reserve_rule(chk, 'C07.D3', prog, p, cfgname)
+            expand.layout_order_rule(chk, 'C07.D3', prog, p, cfgname)
         expand.bcopy_rule(chk, 'C07.D3', prog, cfgname)
         expand.copy_helper_rule(chk, 'C07.D3', prog, cfgname)
         misc.glu_mirror_rule(chk, 'C07.mirror', prog, cfgname, floor=500)
